@@ -519,10 +519,13 @@ pub fn evaluate(ctx: Context, expr: &Expr) -> Result<Val> {
 
 			for part in parts {
 				indexable = match (indexable, evaluate(ctx.clone(), &part.value)?) {
-					(Val::Obj(v), Val::Str(key)) => match v
-						.get(key.clone().into_flat())
-						.with_description_src(&part.span, || format!("field <{key}> access"))?
-					{
+					// The field's value is computed under a frame of its own: recursion whose levels
+					// are linked by field accesses has to run into the frame limit too
+					(Val::Obj(v), Val::Str(key)) => match in_frame(
+						CallLocation::new(&part.span),
+						|| format!("field <{key}> access"),
+						|| v.get(key.clone().into_flat()),
+					)? {
 						Some(v) => v,
 						#[cfg(feature = "exp-null-coaelse")]
 						None if part.null_coaelse => return Ok(Val::Null),
@@ -549,8 +552,12 @@ pub fn evaluate(ctx: Context, expr: &Expr) -> Result<Val> {
 						if n < 0.0 {
 							bail!(ArrayBoundsError(n as isize, v.len()));
 						}
-						v.get(n as usize)?
-							.ok_or_else(|| ArrayBoundsError(n as isize, v.len()))?
+						in_frame(
+							CallLocation::new(&part.span),
+							|| format!("element <{n}> access"),
+							|| v.get(n as usize),
+						)?
+						.ok_or_else(|| ArrayBoundsError(n as isize, v.len()))?
 					}
 					(Val::Arr(_), Val::Str(n)) => {
 						bail!(AttemptedIndexAnArrayWithString(n.into_flat()))
